@@ -185,8 +185,8 @@ Fixpoint is_done (fuel : nat) (m : machine) (C : config) (s : nat) : bool :=
         | None => false
         end
     | KParallel =>
-        forallb (fun r => if is_history m r then true else
-                   existsb (fun d => if is_desc m d r then is_done f m C d else false) C) (children m s)
+        forallb (fun r => if is_history m r then true
+                          else if mem r C then is_done f m C r else false) (children m s)
     | _ => false
     end
   end.
